@@ -45,7 +45,65 @@ def _c15():
 	)
 
 
+def _c08():
+	from engines.tdma import ENGINE
+	return ENGINE, dict(
+		level="exploration", runs_quick=6000, budget_quick_s=40,
+		rule="one run = one seeded plan (ring start position, <=120/<=300 operations out of schedule, "
+			"schedule_set, frame interrupt = execute+one-shot events+advance, bare execute, bare advance, "
+			"reset, arming one of the 16 callbacks to schedule an item / a set / reset from inside execute, "
+			"overflow bursts aimed at one frame, sched_gsmtime one-shot events; swarm-selected op/fault kinds, "
+			"priority and offset modes) executed against the real tdma_sched.c in lock step with a reference "
+			"model frame->items, followed by a drain of >=25 frames; distinct = distinct (start position, "
+			"probe set, fault set, operation/return-value shape); non-trivial = at least one item was "
+			"scheduled and executed",
+		assumptions=[
+			"callbacks report success; frame offsets 0..24; a set's last frame stays below the depth of 25 (offset + frames - 1 <= 24)",
+			"equal priorities may run in any order; items added during execute run after the pre-existing ones, in any order",
+			"items of the current frame at a reset, and the already placed prefix of a set whose later item overflowed, may stay or vanish (settled from the observed slot counts, then checked as usual)",
+			"items of a frame that is advanced over without execute are don't-care: the ring keeps them in the slot, so they may run 25 frames later or never",
+			"a frame holds 8 items until its execute completes; items added on the fly count against the same 8",
+			"sched_gsmtime.c is driven as a caller only: its calls to tdma_schedule_set are judged, its own timing is not",
+		],
+		real_stub={"real": ["tdma_sched.c (tdma_schedule, tdma_schedule_set, tdma_sched_execute, tdma_sched_advance, tdma_sched_reset, tdma_sched_flag_scan)",
+				"sched_gsmtime.c (unmodified, its tdma_schedule_set call observed through a spy)",
+				"struct l1s_state from layer1/sync.h"],
+			"stub": ["sync.c / l1_sync (harness delivers the frame interrupt in the same order)", "DSP/TPU, <calypso/dsp.h>, l1ctl_proto.h (enum only)",
+				"the scheduled callbacks (16 logging callbacks that may schedule follow-ups or reset)", "console (puts/printf counted, not printed)"],
+			"simulated": ["frame interrupts incl. missed ones (bare advance)", "main-context callers", "GSM frame number"]},
+	)
+
+
+def _c06():
+	from engines.sercomm import ENGINE
+	return ENGINE, dict(
+		level="exploration", runs_quick=6000, budget_quick_s=40,
+		rule="one run = one seeded plan (registered DLCI subsets per node, sendmsg/pump/noise/over-long operations "
+			"in both directions, TX-interrupt points inside sercomm_sendmsg on the target) executed by two freshly "
+			"loaded real sercomm.c instances (host build <-> target build) joined by simulated UART wires; every "
+			"pulled octet is checked against a reference HDLC encoder and a priority-queue model, every callback "
+			"against the frame whose closing flag triggered it; distinct = distinct (fault kinds, probe set, "
+			"per-direction sequence of (length class, outcome)); non-trivial = at least one frame delivered",
+		assumptions=[
+			"DLCI 128 (echo handler registered by sercomm_init on both ends) and DLCIs >= 129 are never used; no handler on DLCI 126",
+			"the single frame following an over-long frame may be lost or delivered (don't-care)",
+			"the UART interrupt is delivered only at call granularity: between API calls and at the three points of "
+			"sercomm_sendmsg where interrupts are enabled (target build); no pre-emption inside the locked region",
+			"messages are allocated with sercomm_alloc_msgb(max(len,1)); allocation never fails",
+			"both builds link the in-tree libosmocore msgb.c/talloc.c (not the firmware's static msgb pool)",
+		],
+		real_stub={"real": ["sercomm.c (HOST_BUILD and target configuration, unmodified)", "libosmocore msgb.c", "libosmocore talloc.c",
+				"firmware debug.h / uart.h / comm/sercomm.h"],
+			"stub": ["asm/system.h (lock -> balance counter + interrupt points)", "uart_irq_enable (records 'TX interrupt armed')",
+				"osmo_panic / talloc abort / SIGSEGV (flag + longjmp)", "receive handlers (log + msgb_free)"],
+			"simulated": ["both UART directions", "UART TX interrupt", "inter-frame noise", "over-long frames (real Tx path or raw)",
+				"malloc/free with guard zones and quarantine"]},
+	)
+
+
 REGISTRY = {
+	"C06": _c06,
+	"C08": _c08,
 	"C09": _c09,
 	"C15": _c15,
 }
